@@ -55,6 +55,12 @@ CLAIMED = {
                 "of a sandbox writer - and a logging verifier: the verifier's object is in application memory, no sandbox read happens once the verifier "
                 "is entered, string buffers have exactly checked-length+1 bytes ending in NUL for every adversary choice, no application overrun or null write.",
             "Counterexamples are solver-chosen schedules and are not replayed natively; bounds strlen<=6, count<=4.", "DESIGN.md 4/C09"),
+    "C15": (MC, "Inductive step on rlbox's app_pointer_map<uint8_t> (compiled unmodified against a total-function std::map model): from an arbitrary table "
+                "state satisfying the invariant and an arbitrary limit, one register/release/lookup with arbitrary arguments keeps the invariant, issues a "
+                "non-zero in-range previously-unused token mapping to the pointer, changes nothing else, and aborts exactly when no token is free / the "
+                "token is absent; constructor as base case - covers histories of any length up to the limit bound. Owner objects (move, overwrite, destroy, "
+                "unregister) on the real container: all histories up to the depth bound against a reference model; stale-token lookups abort.",
+            "limit<=12 quick / 40 thorough; 8-bit tokens; owner histories depth 3/4.", "DESIGN.md 4/C15"),
     "C05": (MC, "p+n, p-n, +=, -=, ++/-- (pre/post), p[n], &p[n] for 8 pointee types x integer index types (plain, tainted, tainted_volatile) on LP32/LP16 "
                 "model backends with symbolic region base, pointer and full-width index: returns iff the exact 128-bit address p+/-n*s_guest is inside "
                 "the region and then returns exactly it, else aborts; null aborts.",
